@@ -51,6 +51,7 @@ class Recorder:
         self.fails = set(fails)
         self.crash = crash
         self.calls = 0
+        self.eperm = False  # injected failures are PermissionError (transfer._add._error looks at it)
         self.aborted = False
         self.events = []  # ("put", oid, ok) | ("drop", oid)
         self.snaps = []  # {oid: bytes} after every upload attempt
@@ -85,6 +86,8 @@ def faultfs_class():
             rec.calls += 1
             try:
                 if oid in rec.fails:
+                    if rec.eperm:
+                        raise PermissionError(13, "injected upload failure")
                     raise OSError(5, "injected upload failure")
                 super().put_file(lpath, rpath, callback=callback, **kwargs)
             except Exception:
@@ -277,6 +280,7 @@ class Scenario:
         ob["dix_before"] = index_items(self.dix)
         ob["six_before"] = index_items(self.six)
         rec = Recorder(self.p_dst, [self.oid[t] for t in rs.get("fails") or []], rs.get("crash"))
+        rec.eperm = bool(self.case.get("eperm"))
         fs = faultfs_class()()
         fs.rec = rec
         dcls = LocalHashFileDB if case["dst_cls"] == "local" else HashFileDB
@@ -811,6 +815,11 @@ def gen_base(rng, prop):
     case = {"prop": prop, **uni, "dst": dst, "req": req, "shallow": shallow,
             "verify": rng.random() < p_verify, "src_cls": rng.choice(["local", "base"]),
             "dst_cls": "local", "dix": False, "six": False, "rounds": []}
+    if rng.random() < 0.3:
+        # the failure is a PermissionError: _add._error then asks whether the destination object is
+        # protected (a concurrent writer's object); with a single writer it never is
+        case["eperm"] = True
+        notes.append("fail-kind:PermissionError")
     return case, notes + ["dest:" + dkind, "req:" + rkind]
 
 
